@@ -224,4 +224,51 @@ theorem compareLoop_contacts (vs : List Bool) (i : Nat) :
       · exact ⟨i, rfl⟩
       · exact ih _ c hc
 
+/-! ### `compare_chain` -/
+
+theorem compareFiles_iff (same : String → Bool) (fs : List String) :
+    (compareFiles same fs).1 = true ↔ ∀ f ∈ fs, same f = true := by
+  induction fs with
+  | nil => simp [compareFiles]
+  | cons f fs ih =>
+    by_cases hf : same f = true
+    · simp [compareFiles, hf, ih]
+    · simp [compareFiles, hf]
+
+theorem compareFiles_prefix (same : String → Bool) (fs : List String) : (compareFiles same fs).2 <+: fs := by
+  induction fs with
+  | nil => simp [compareFiles]
+  | cons f fs ih =>
+    by_cases hf : same f = true
+    · simp only [compareFiles, hf, if_true]
+      exact (List.prefix_cons_inj f).mpr ih
+    · simp only [compareFiles, hf]
+      exact ⟨fs, rfl⟩
+
+theorem compareFiles_all (same : String → Bool) (fs : List String) (h : (compareFiles same fs).1 = true) :
+    (compareFiles same fs).2 = fs := by
+  induction fs with
+  | nil => simp [compareFiles]
+  | cons f fs ih =>
+    by_cases hf : same f = true
+    · simp only [compareFiles, hf, if_true] at h ⊢
+      rw [ih h]
+    · simp [compareFiles, hf] at h
+
+/-- an invalid verdict is due to the last file compared; everything compared before it was equal -/
+theorem compareFiles_stop (same : String → Bool) (fs : List String) (h : (compareFiles same fs).1 = false) :
+    ∃ pre f, (compareFiles same fs).2 = pre ++ [f] ∧ same f = false ∧ ∀ g ∈ pre, same g = true := by
+  induction fs with
+  | nil => simp [compareFiles] at h
+  | cons f fs ih =>
+    by_cases hf : same f = true
+    · simp only [compareFiles, hf, if_true] at h ⊢
+      obtain ⟨pre, g, h1, h2, h3⟩ := ih h
+      refine ⟨f :: pre, g, by simp [h1], h2, ?_⟩
+      intro x hx
+      rcases List.mem_cons.mp hx with rfl | hx
+      · exact hf
+      · exact h3 x hx
+    · refine ⟨[], f, by simp [compareFiles, hf], by simpa using hf, by simp⟩
+
 end I2N.Pool
